@@ -52,6 +52,12 @@ class RI(proto.Interp):
             v = st.env.get(call.func.id)
             if is_t(v) and v[1] == 'getattr':
                 return [('ok', T('invoke', v, *args), st)]
+        if isinstance(call.func, ast.Call) and (dotted(call.func.func) or '') == 'getattr':
+            # getattr(arr, name)(args): the looked-up method is invoked at once, without a local in between
+            out = []
+            for fv, s2 in self.ev(call.func, st):
+                out.append(('ok', T('invoke', fv, *args) if is_t(fv) and fv[1] == 'getattr' else T('call', name, C(0), *args), s2))
+            return out
         if name == 'getattr' and len(args) >= 2:
             return [('ok', T('getattr', *args), st)]
         if name == 'len' and len(args) == 1 and is_t(self.deref(args[0], st)) and self.deref(args[0], st)[1] in ('tuple', 'list'):
@@ -108,8 +114,10 @@ def check_derivation(ctx, cls, fi, args, label, expect_pair):
             probs.append('%s: the derived reader shares the op list object of its parent' % label)
             continue
         content = st.heap.get(cref) if I._is_ref(cref) else cref
-        if not (is_t(content) and content[1] == 'list'):
-            probs.append('%s: op list of the derived reader is %s' % (label, show(content)[:60]))
+        if not (is_t(content) and content[1] in ('list', 'tuple')):
+            # an op sequence held in a form the walk does not model (a call result, a generator) is not a wrong op sequence
+            opaque = is_t(content) and any(is_t(x) and x[1] == 'call' for x in subterms(content))
+            probs.append(('UNDECIDED ' if opaque else '') + '%s: op list of the derived reader is %s' % (label, show(content)[:60]))
             continue
         items = content[2:]
         if len(items) < 2 and tuple(items) == tuple(old[:len(items)]):
@@ -249,8 +257,8 @@ def run(ctx):
             if full is not True:
                 p2.append('reader[rows, cols] returns a reader although rows is not the full slice')
             cref = st.heap.get((val, '_ops'))
-            content = st.heap.get(cref)
-            if not (is_t(content) and content[2:] == old + (T('tuple', C('cols'), cols),)):
+            content = st.heap.get(cref) if I._is_ref(cref) else cref        # a list on the heap, or a tuple value
+            if not (is_t(content) and content[1] in ('list', 'tuple') and content[2:] == old + (T('tuple', C('cols'), cols),)):
                 p2.append('reader[:, cols] returns a reader with ops %s, expected parent ops + (cols, cols)' % show(content)[:80])
             if st.heap.get(ref0) != T('list', *old):
                 p2.append('reader[:, cols] modifies the op list of the reader itself')
